@@ -77,6 +77,7 @@ type c14Scn struct {
 	Dial     string `json:"dial,omitempty"`     // connected | fault | disc
 	Frames   []int  `json:"frames,omitempty"`   // inbound ARQ payload sizes
 	ReadBuf  int    `json:"read_buf"`
+	LateRead bool   `json:"late_read"`          // the application starts reading only after the TNC has delivered everything and disconnected
 	Seg      int    `json:"seg"`
 	Writes   []int  `json:"writes,omitempty"`
 	CRCFault int    `json:"crcfault"`           // CRCFAULT answers to the first data frame (serial)
@@ -91,8 +92,8 @@ func (s c14Scn) describe() string {
 	if s.Serial {
 		mode = "serial"
 	}
-	return fmt.Sprintf("%s %s offline=%v dial=%s frames=%v readbuf=%d seg=%s writes=%v crcfault=%d buforder=%d closeans=%d mal=%d",
-		s.Kind, mode, s.Offline, s.Dial, s.Frames, s.ReadBuf, c13SegName(s.Seg), s.Writes, s.CRCFault, s.BufOrder, s.CloseAns, s.Mal)
+	return fmt.Sprintf("%s %s offline=%v dial=%s frames=%v readbuf=%d late=%v seg=%s writes=%v crcfault=%d buforder=%d closeans=%d mal=%d",
+		s.Kind, mode, s.Offline, s.Dial, s.Frames, s.ReadBuf, s.LateRead, c13SegName(s.Seg), s.Writes, s.CRCFault, s.BufOrder, s.CloseAns, s.Mal)
 }
 
 type c14Sim struct {
@@ -444,6 +445,7 @@ func c14Harness(sc c14Scn, o *c14Obs) func() {
 			switch sc.Kind {
 			case "inbound", "listen":
 				o.stage = "read"
+				arqDone := false
 				vs.GoNamed("tnc-arq", false, func() {
 					for k, n := range sc.Frames {
 						vs.WaitQuiescent()
@@ -452,7 +454,12 @@ func c14Harness(sc c14Scn, o *c14Obs) func() {
 					vs.WaitQuiescent()
 					sim.say("DISCONNECTED")
 					sim.say("NEWSTATE DISC")
+					vs.WaitQuiescent()
+					arqDone = true
 				})
+				if sc.LateRead {
+					vs.WaitUntil("tnc has delivered everything and disconnected", func() bool { return arqDone })
+				}
 				size := sc.ReadBuf
 				if size == 0 {
 					size = 65536
@@ -655,6 +662,11 @@ func c14Scenarios(thorough bool) []c14Scn {
 			}
 		}
 		out = append(out, c14Scn{Kind: "listen", Serial: serial, Frames: []int{3, 4}})
+		for _, fs := range [][]int{{6}, {5, 5, 5}, {20, 1, 300, 2, 9, 9, 9, 9}} {
+			for _, rb := range []int{0, 7} {
+				out = append(out, c14Scn{Kind: "inbound", Serial: serial, Frames: fs, ReadBuf: rb, LateRead: true})
+			}
+		}
 		for m := 0; m <= 12; m++ {
 			out = append(out, c14Scn{Kind: "malformed", Serial: serial, Mal: m}, c14Scn{Kind: "malformed", Serial: serial, Mal: m, Seg: 1})
 		}
